@@ -552,7 +552,7 @@ impl W {
     /// zero-sized arguments (unit, a zero-sized registered type) in front of and between other arguments,
     /// Rust -> script, script -> registered function and script -> script
     fn zst_positions(&self, c: &mut Choices) -> Result<(u64, String), (String, String)> {
-        let src = "fn z1(a: i32, z: Tz, b: i64) -> i64 { b }\nfn z2(z: Tz, a: i32) -> i32 { a }\nfn z3(u: (), a: i32, z: Tz, w: (), b: u8) -> u8 { b }\nfn z4(a: i32) -> i32 { hz2(mkz(), a) }\nfn z5(a: i32, b: i32) -> i32 { hz3(a, mkz(), b) }\nfn z6(a: i32) -> i32 { z2(mkz(), a) }\nfn z7(u: (), a: i32) -> i32 { a }\n";
+        let src = "fn z1(a: i32, z: Tz, b: i64) -> i64 { b }\nfn z2(z: Tz, a: i32) -> i32 { a }\nfn z3(u: (), a: i32, z: Tz, w: (), b: u8) -> u8 { b }\nfn z4(a: i32) -> i32 { hz2(mkz(), a) }\nfn z5(a: i32, b: i32) -> i32 { hz3(a, mkz(), b) }\nfn z6(a: i32) -> i32 { z2(mkz(), a) }\nfn z7(u: (), a: i32) -> i32 { a }\nfn y1(a: i32, z: Tzc, b: i64) -> i64 { b }\nfn y2(z: Tzc, a: i32) -> i32 { a }\nfn y3(u: (), a: i32, z: Tzc, w: Tz, b: u8) -> u8 { b }\nfn y4(a: i32) -> i32 { hzc2(mkzc(), a) }\nfn y5(a: i32, b: i32) -> i32 { hzc3(a, mkzc(), b) }\nfn y6(a: i32) -> i32 { y2(mkzc(), a) }\nfn y7(z: Tzc, a: i32, b: i32) -> i32 { hzc3(a, z, b) }\n";
         let mut pkg = host::compile(&self.rt, src).map_err(|e| ("zst-positions:rejected".to_string(), e))?;
         let (a, b, d, e) = (i32::make(c), i64::make(c), u8::make(c), i32::make(c));
         let show = format!("a = {a}, b = {b}, d = {d}, e = {e}");
@@ -576,7 +576,66 @@ impl W {
         chk!("z5", gf!("z5", fn(i32, i32) -> i32).call(a, e), a.wrapping_mul(31).wrapping_add(e));
         chk!("z6", gf!("z6", fn(i32) -> i32).call(e), e);
         chk!("z7", gf!("z7", fn((), i32) -> i32).call((), a), a);
-        Ok((7, show))
+        // the same with a zero-sized *copy* type
+        chk!("y1", gf!("y1", fn(i32, Val<host::Tzc>, i64) -> i64).call(a, Val(host::Tzc), b), b);
+        chk!("y2", gf!("y2", fn(Val<host::Tzc>, i32) -> i32).call(Val(host::Tzc), a), a);
+        chk!("y3", gf!("y3", fn((), i32, Val<host::Tzc>, Val<host::Tz>, u8) -> u8).call((), a, Val(host::Tzc), Val(host::Tz::new()), d), d);
+        chk!("y4", gf!("y4", fn(i32) -> i32).call(a), a);
+        chk!("y5", gf!("y5", fn(i32, i32) -> i32).call(a, e), a.wrapping_mul(31).wrapping_add(e));
+        chk!("y6", gf!("y6", fn(i32) -> i32).call(e), e);
+        chk!("y7", gf!("y7", fn(Val<host::Tzc>, i32, i32) -> i32).call(Val(host::Tzc), a, e), a.wrapping_mul(31).wrapping_add(e));
+        Ok((14, show))
+    }
+
+    /// narrow integers that the script computes itself (wrapping arithmetic, negation, a literal,
+    /// the payload of an Option) handed straight to a registered function, which widens them
+    fn narrow_to_host(&self, c: &mut Choices) -> Result<(u64, String), (String, String)> {
+        let mut src = String::new();
+        for t in ["i8", "i16", "i32", "u8", "u16", "u32"] {
+            let lit = match t {
+                "i8" => "-5",
+                "i16" => "-5",
+                "i32" => "-5",
+                "u8" => "200",
+                "u16" => "65000",
+                _ => "4000000000",
+            };
+            src.push_str(&format!(
+                "fn n_{t}(a: {t}, b: {t}) -> i64 {{ w_{t}(a - b) }}\nfn p_{t}(a: {t}, b: {t}) -> i64 {{ w_{t}(a + b) }}\nfn l_{t}() -> i64 {{ w_{t}({lit}) }}\nfn o_{t}(x: {t}?) -> i64 {{ match x {{ Some(v) => w_{t}(v), None => 0 }} }}\nfn m_{t}(a: {t}, b: {t}) -> i64 {{ let r = {{ a: a * b }}; w_{t}(r.a) }}\n"
+            ));
+        }
+        let mut pkg = host::compile(&self.rt, &src).map_err(|e| ("narrow-to-host:rejected".to_string(), e))?;
+        let mut n = 0u64;
+        let mut show = String::new();
+        macro_rules! one {
+            ($t:ty, $name:literal, $lit:expr) => {{
+                let (a, b) = (<$t>::make(c), <$t>::make(c));
+                show = format!("{}: a = {a}, b = {b}", $name);
+                let chk = |what: &str, got: i64, want: i64| -> Result<(), (String, String)> {
+                    if got != want {
+                        Err((format!("narrow-to-host:{}", $name), format!("{what}: the registered function saw {got}, expected {want} (a = {a}, b = {b})\n{src}")))
+                    } else {
+                        Ok(())
+                    }
+                };
+                let f2 = |pkg: &mut roto::Package<NoCtx>, p: &str| pkg.get_function::<fn($t, $t) -> i64>(&format!("{p}_{}", $name)).map_err(|e| ("narrow-to-host:get_function".to_string(), format!("{e}")));
+                chk("a - b", f2(&mut pkg, "n")?.call(a, b), a.wrapping_sub(b) as i64)?;
+                chk("a + b", f2(&mut pkg, "p")?.call(a, b), a.wrapping_add(b) as i64)?;
+                chk("a * b through a record field", f2(&mut pkg, "m")?.call(a, b), a.wrapping_mul(b) as i64)?;
+                let l = pkg.get_function::<fn() -> i64>(&format!("l_{}", $name)).map_err(|e| ("narrow-to-host:get_function".to_string(), format!("{e}")))?;
+                chk("literal", l.call(), $lit as $t as i64)?;
+                let o = pkg.get_function::<fn(Option<$t>) -> i64>(&format!("o_{}", $name)).map_err(|e| ("narrow-to-host:get_function".to_string(), format!("{e}")))?;
+                chk("payload of an Option", o.call(Some(a)), a as i64)?;
+                n += 5;
+            }};
+        }
+        one!(i8, "i8", -5i64);
+        one!(i16, "i16", -5i64);
+        one!(i32, "i32", -5i64);
+        one!(u8, "u8", 200i64);
+        one!(u16, "u16", 65000i64);
+        one!(u32, "u32", 4000000000i64);
+        Ok((n, show))
     }
 
     fn context(&self, c: &mut Choices) -> Result<(u64, String), (String, String)> {
@@ -623,8 +682,8 @@ impl WorkerState for W {
         let empty: Vec<u8> = Vec::new();
         let ctl = case.first().unwrap_or(&empty);
         let mut c = Choices::new(ctl);
-        let k = c.below(self.checks.len() + 3);
-        if k < self.checks.len() { format!("type {}", self.checks[k].name) } else { "positions / zero-sized positions / context".into() }
+        let k = c.below(self.checks.len() + 4);
+        if k < self.checks.len() { format!("type {}", self.checks[k].name) } else { "positions / zero-sized positions / narrow integers to host / context".into() }
     }
 
     fn run(&mut self, case: &Case, render: bool) -> Outcome {
@@ -640,7 +699,7 @@ impl WorkerState for W {
                 }
             }
         }
-        let k = c.below(self.checks.len() + 3);
+        let k = c.below(self.checks.len() + 4);
         eprintln!("@@ctx route={k}");
         let res = if k < self.checks.len() {
             o.classes.push(format!("type:{}", self.checks[k].name));
@@ -651,6 +710,9 @@ impl WorkerState for W {
         } else if k == self.checks.len() + 1 {
             o.classes.push("route:zero-sized-argument-positions".into());
             self.zst_positions(&mut c).map(|(n, s)| (n, true, s))
+        } else if k == self.checks.len() + 2 {
+            o.classes.push("route:narrow-integers-computed-by-the-script-to-host".into());
+            self.narrow_to_host(&mut c).map(|(n, s)| (n, true, s))
         } else {
             o.classes.push("route:context-fields".into());
             self.context(&mut c).map(|(n, s)| (n, true, s))
